@@ -119,8 +119,17 @@ def gen_game(rng, g, addr):
 
 
 def gen_invalid_game(rng):
-    c = rng.randrange(9)
-    if c == 6:
+    c = rng.randrange(11)
+    if c == 9:
+        # a parameter of the right class whose inner value cannot be hashed (a list where a text is expected)
+        t = msg("ExploitService", source_host=ip("192.168.2.2"), target_host=ip("192.168.1.2"),
+                target_service={"name": ["ssh"], "type": "passive", "version": "1", "is_local": False})
+        at = "ExploitService"
+    elif c == 10:
+        t = msg("ExfiltrateData", source_host=ip("192.168.2.2"), target_host=ip("192.168.2.2"),
+                data={"owner": ["User1"], "id": {"x": 1}, "size": 0, "type": ""})
+        at = "ExfiltrateData"
+    elif c == 6:
         t = msg("ScanNetwork")                                   # several required parameters missing at once
         at = "ScanNetwork"
     elif c == 7:
@@ -313,9 +322,38 @@ def directed_config(rng, required, max_steps, goal_at_once=False, defender=False
 def directed(rng, k):
     """Run the k-th directed scenario; returns (Session, cfg, draw)."""
     kinds = ["eof", "readerr", "quit", "undecodable"]
-    variant = (k // 15) % 2
-    k = k % 15
-    if k == 14:
+    variant = (k // 16) % 2
+    k = k % 16
+    if k == 15:
+        # dynamic addresses with a REACHABLE goal: the win condition follows the re-labelling, episode after episode
+        cfg, draw = directed_config(rng, 1, 6)
+        cfg["env"]["use_dynamic_addresses"] = True
+        A = cfg["coordinator"]["agents"]["Attacker"]
+        g0 = copy.deepcopy(nsgenv.EMPTY_PART)
+        if variant == 0:
+            g0["known_hosts"] = ["192.168.1.2"]                          # found by scanning the (re-labelled) 192.168.1.0/24
+        else:
+            g0["known_networks"] = ["192.168.3.0/24"]
+            g0["controlled_hosts"] = ["192.168.2.2"]                     # reached from the start, under every labelling
+        A["goal"] = dict(g0, description="Find the host 192.168.1.2", is_any_part_of_goal_random=False)
+        S = CR.Session(cfg, draw=draw)
+        a = ("10.2.15.1", 1)
+        S.connect(a); S.settle()
+        _join(S, a, "dyn", "Attacker"); S.settle()
+        for episode in range(3):
+            for _ in range(6):
+                if S.g._episode_ends.get(a):
+                    break
+                st = S.g._agent_states.get(a)
+                src = sorted((str(h) for h in st.controlled_hosts), key=lambda x: (not x.startswith(("10.", "192.168.", "172.")), x))[0]
+                unseen = sorted((n.ip, n.mask) for n in st.known_networks)
+                n = unseen[_ % len(unseen)]
+                t, d = game_msg("ScanNetwork", source_host=ip(src), target_network={"ip": n[0], "mask": n[1]})
+                S.send(a, t, d); S.settle()
+            t, d = game_msg("FindData", source_host=ip(src), target_host=ip(src))
+            S.send(a, t, d); S.settle()                                  # refused once the episode has ended
+            _reset(S, a, episode % 2 == 0); S.settle()
+    elif k == 14:
         # a goal that lists two data for one host: it is reached when BOTH are there, whatever the order of delivery
         # (variant 0: the last-listed datum is delivered first); before that the episode goes on
         cfg, draw = directed_config(rng, 1, 12)
@@ -391,8 +429,9 @@ def directed(rng, k):
     elif k == 11:
         # dynamic addresses: several consecutive collective resets (each one re-labels the network), actions taken from the
         # current view, a departure and a join after a re-labelling
-        cfg, draw = directed_config(rng, 1 + variant, 3)
+        cfg, draw = directed_config(rng, 1 + variant, 3 if variant == 0 else 8)
         cfg["env"]["use_dynamic_addresses"] = True
+        cfg["coordinator"]["agents"]["Defender"].pop("max_steps", None)
         A = cfg["coordinator"]["agents"]["Attacker"]
         g0 = copy.deepcopy(nsgenv.EMPTY_PART)
         g0["known_hosts"] = ["1.1.1.1"]                                  # unreachable under every labelling
@@ -403,8 +442,20 @@ def directed(rng, k):
             S.connect(x)
         S.settle()
         for i, x in enumerate(ags):
-            _join(S, x, "d%d" % i, "Attacker")
+            _join(S, x, "d%d" % i, "Attacker" if i == 0 else "Defender")   # the Defender starts with 'all_local'
         S.settle()
+
+        def world_scan(x):
+            # every network of the (re-labelled) world by the name the world gives it - public ones keep their host bits
+            st = S.g._agent_states.get(x)
+            if st is None:
+                return
+            src = sorted(str(h) for h in st.controlled_hosts)[0]
+            for n in sorted((str(k.ip), k.mask) for k in S.g._networks):
+                if S.g._episode_ends.get(x):
+                    break
+                t, d = game_msg("ScanNetwork", source_host=ip(src), target_network={"ip": n[0], "mask": n[1]})
+                S.send(x, t, d); S.settle()
 
         def view_scan(x):
             st = S.g._agent_states.get(x)
@@ -425,6 +476,8 @@ def directed(rng, k):
             for _ in range(rng.choice([1, 3])):
                 for x in ags:
                     view_scan(x); S.settle()
+            if episode == 1:
+                world_scan(ags[-1])
             for i, x in enumerate(ags):
                 _reset(S, x, (episode + i) % 2 == 0)
             S.settle()
@@ -612,7 +665,13 @@ def directed(rng, k):
         addrs = [("10.2.6.%d" % i, i) for i in range(1, 7)]
         S.connect(addrs[0]); S.connect(addrs[1]); S.settle()
         _join(S, addrs[0], "a", "Attacker"); S.settle()
-        _leave(S, addrs[0], "quit"); S.settle()
+        if variant == 1:
+            # a stray newline / blank message is a message: it is answered (BAD_REQUEST), then the peer goes away without
+            # saying goodbye - the slot must come back
+            S.send(addrs[0], rng.choice(["\n", "   ", "\t\n"]), {"kind": "garbage"}); S.settle()
+            _leave(S, addrs[0], rng.choice(["eof", "readerr"])); S.settle()
+        else:
+            _leave(S, addrs[0], "quit"); S.settle()
         S.connect(addrs[2]); S.settle()
         _join(S, addrs[2], "b", "Attacker"); S.settle()
         S.write_fail(addrs[2]); _scan(S, addrs[2]); S.settle()
